@@ -247,3 +247,52 @@ func HarnessC17Fail(kind int) {
 	vnAssert(r.Len() == 0, "C17.resolution-failure-has-length-0")
 	vnCover("C17.resolution-failure-checked")
 }
+
+// HarnessC17Once — the accessors on the result of a run-once function that was
+// first used as a converter inside another call and is then called directly:
+// the direct call's result must still be the function's own return values.
+func HarnessC17Once(form int) {
+	hOrderSites(0)
+	w := &hWorld{}
+	w.Target = hFuncSpec{ID: 0, Form: hFormStruct, In: []hLabel{{Name: "a", T: hTP1}}}
+	w.Convs = []hFuncSpec{{ID: 1, Form: form, In: []hLabel{{T: hTP0}}, Out: []hLabel{{Name: "a", T: hTP1}}, Once: true}}
+	if form == hFormPositional {
+		w.Convs[0].Out = []hLabel{{T: hTP1}}
+	}
+	w.Vals = []hVal{{L: hLabel{T: hTP0}, ID: vnPayload("x")}}
+	vnNote(w.String())
+	r, built, panicked, _ := w.hCall()
+	if !built || panicked {
+		vnAssume(false)
+	}
+	vnAssert(r.Err() == nil, "C17.once.converter-use-succeeds")
+	if r.Err() != nil || len(w.Log) == 0 || w.Log[0].Fn != 1 {
+		return
+	}
+	first := w.Log[0].Out[0]
+	f := w.Funcs[1]
+	wantT := f.Func()
+	_ = wantT
+	for k := 0; k < 2; k++ {
+		var r2 Result
+		if hGuardPlain(func() { r2 = f.Call(Typed(hP0{vnPayload("y", k)})) }) {
+			vnAssert(false, "C17.once.direct-call-does-not-panic")
+			return
+		}
+		vnAssert(r2.Err() == nil, "C17.once.direct-call-succeeds")
+		vnAssert(r2.Len() == 1, "C17.once.len")
+		if r2.Err() != nil || r2.Len() != 1 {
+			return
+		}
+		out := r2.Out(0)
+		// the i-th output is the function's i-th returned value: same Go type as declared
+		ft := reflect.TypeOf(f.Func())
+		vnAssert(reflect.TypeOf(out) == ft.Out(0), "C17.once.out-has-the-declared-result-type")
+		ids := hResultIDs(r2)
+		vnAssert(len(ids) == 1, "C17.once.out-shape")
+		if len(ids) == 1 {
+			vnAssert(ids[0].T == first.L.T && ids[0].ID == first.ID, "C17.once.out-is-the-first-execution's-value")
+		}
+	}
+	vnCover("C17.once-checked")
+}
